@@ -23,22 +23,18 @@ Print Assumptions C03_prefix_safe.
    history ops2), recover: nothing of the log up to the horizon is missing across both runs *)
 Theorem C03_restart_common : forall c log ops pre post ops2 vis,
   wf_log log -> mtr (mrun c log ops) = pre ++ post ->
-  let c2 := rebase c (fun s => persisted c s pre) in
-  let m2 := mrun c2 log (ops2 ++ [MTooLong vis]) in
-  moof m2 = false ->
   forall s e, (s = 0 \/ s = 1) -> In e log -> eseq e = s -> base c s < epos e <= vis s ->
-              accounted s e pre \/ accounted s e (mtr m2).
-Proof. exact restart_common. Qed.
+              accounted s e pre \/
+              accounted s e (mtr (mrun (rebase c (fun s => persisted c s pre)) log (ops2 ++ [MTooLong vis]))).
+Proof. exact restart_common_total. Qed.
 Print Assumptions C03_restart_common.
 
 Theorem C03_restart_channel : forall c log ops pre post ops2 vis s,
   wf_log log -> 2 <= s < nseq c -> mtr (mrun c log ops) = pre ++ post ->
-  let c2 := rebase c (fun s => persisted c s pre) in
-  let m2 := mrun c2 log (ops2 ++ [MChanTooLong vis s]) in
-  moof m2 = false ->
   forall e, In e log -> eseq e = s -> base c s < epos e <= vis s ->
-            accounted s e pre \/ accounted s e (mtr m2).
-Proof. exact restart_channel. Qed.
+            accounted s e pre \/
+            accounted s e (mtr (mrun (rebase c (fun s => persisted c s pre)) log (ops2 ++ [MChanTooLong vis s]))).
+Proof. exact restart_channel_total. Qed.
 Print Assumptions C03_restart_channel.
 
 (* ---- the findings, as witnesses on the routing BEFORE the repair ---- *)
